@@ -304,6 +304,7 @@ package zset
 //@   ensures[C07] noHdr(ss)
 //@   ensures[C07] !remove ==> unchanged(ss.Dict) && ss.length == old(ss.length) && ss.level == old(ss.level) && ss.tail == old(ss.tail)
 //@   ensures[C07] old(dictOK(ss)) ==> dictOK(ss)
+//@   ensures[C07,C12] !remove ==> same(all(SortedSetNode.backward)) && same(allelems(ss.header.level)) && same(entries(ss.Dict))
 //@   modifies ss.level, ss.tail, ss.length, entries(ss.Dict), all(SortedSetNode.backward), allelems(ss.header.level)
 //@   safety[C07,C20] panics
 //@   loops 4
@@ -320,6 +321,7 @@ package zset
 //@   loop 3: invariant onlyNew(nil)
 //@   loop 3: invariant old(dictOK(ss)) ==> dictOK(ss)
 //@   loop 3: invariant !remove ==> unchanged(ss.Dict) && ss.length == old(ss.length) && ss.level == old(ss.level) && ss.tail == old(ss.tail)
+//@   loop 3: invariant !remove ==> same(all(SortedSetNode.backward)) && same(allelems(ss.header.level)) && same(entries(ss.Dict))
 //@   loop 3: invariant x != ss.header && (x != nil ==> allocated(x) && len(x.level) >= 1 && fwd0(ss, x))
 //@   loop 3: invariant remove ==> (forall k int :: 0 <= k && k < ss.level ==> updAt(ss, update[k], k))
 //@   loop 3: invariant forall k int :: 0 <= k && k < len(nodes) ==> nodes[k] != nil && nodes[k] != ss.header
